@@ -172,9 +172,10 @@ pub fn run_script(prog: &str, reference: &[u16], script: &[Op], schedule: &[usiz
             Op::Continue | Op::Next | Op::StepIn | Op::StepOut => {
                 // a step request may also arrive while the machine runs freely ("any timing of client requests"):
                 // it then has to produce a consistent stop like a pause; `continue` needs a stopped machine
+                // (`continue` may arrive while the machine runs as well: it has nothing to do then)
                 let running_now = before.state == MachineRunningState::Running;
                 let step = *op != Op::Continue;
-                if !(stopped_now || (step && running_now)) || !is_connected(&machine) {
+                if !(stopped_now || running_now) || !is_connected(&machine) {
                     out.ill_formed = true;
                     break 'script;
                 }
